@@ -92,6 +92,9 @@ theorem C18_fact_nothing_forgotten : Facts.client_last_chunk_assignments =
      "processInput:&chunk", "processInput:nil(after-send=true,after-failure-return=true)"] ∧
     Facts.client_leftover_sources = ["fromPrevious...", "fromAckerChannel...", "fromAckerPending...", "*session.lastChunk"] ∧
     Facts.stop_resend_collects_previous = ["collectLeftovers(leftovers, endImmediately)", "collectLeftovers(leftovers, endImmediately)"] := by decide
+/-- after the stop signal `run.Run` ends the inputs first, then the pipelines (which save what is pending), and only then the
+metrics listener, whose `Shutdown` waits for active requests without a limit -/
+theorem C18_fact_run_order : Facts.stop_run_order = ["shutdownInputs", "orchestrator.Shutdown", "msrv.Shutdown"] := by decide
 /-- every connection of the listener has a closer goroutine waiting on the stop request -/
 theorem C18_fact_listener_closers : Facts.stop_listener_closers =
     ["run: AnyAwaitables(listener.stopRequest, abortListener) -> socket.Close", "launchConnectionCloser: AnyAwaitables(listener.stopRequest, abortConn) -> conn.Close"] := by decide
